@@ -55,6 +55,7 @@ def zoo_program(name):
 REF_PROGRAMS = {
     "flow-ref": "flow c $n\n  match E2(n=$n)\n  send CM(n=$n)\n  match E3()\n\nflow main\n  start c 1 as $fr\n  match E1()\n  send Echo(st=str($fr.status), n=$fr.n)\n  match $fr.Finished()\n  send Echo2()\n  match Never()\n",
     "action-ref": "flow main\n  start ActMAction(p=[1, 2]) as $ar\n  match E1()\n  send Echo(st=str($ar.status))\n  match $ar.Finished() as $ev\n  send Echo2(r=$ev.return_value)\n  match Never()\n",
+    "action-args-with-containers": "flow main\n  start ActMAction(p={\"a\", \"b\"}, q={1: \"one\"}, r=regex(\"^a\")) as $ar\n  match E1()\n  send Echo(n=len($ar.p))\n  match $ar.Finished() as $ev\n  send Echo2(r=$ev.return_value)\n  match Never()\n",
     "event-ref": "flow main\n  match E1() as $ev\n  send Echo(p=$ev.p)\n  match E2()\n  send Echo2(p=$ev.p, q=$ev.q)\n  match Never()\n",
     "shared-action": "flow s1\n  match E1()\n  start ActSAction() as $a\n  match E2()\n  send S1(st=str($a.status))\n  match Never()\n\nflow s2\n  match E1()\n  start ActSAction() as $a\n  match E3()\n\nflow main\n  start s1\n  start s2\n  match Never()\n",
     "global-var": "flow c\n  global $g\n  match E2()\n  $g = $g + 1\n  send CM(g=$g)\n\nflow main\n  global $g\n  $g = 10\n  activate c\n  match E1()\n  send Echo(g=$g)\n  match E3()\n  send Echo2(g=$g)\n  match Never()\n",
